@@ -739,7 +739,10 @@ class ConfigParser(object):
       'charge' : float,
       'lattice_type' : default}
 
-    converted = known_properties.get(property_name, default)(v)
+    try:
+      converted = known_properties.get(property_name, default)(v)
+    except ValueError:
+      raise ConfigParserException("Could not convert the value of [Species] property '{}' into a number. Value is = {}".format(property_name, v))
     return converted
 
   @property
